@@ -41,6 +41,9 @@ static void c02_run(void) {
 	g.nest_pct = 15;
 	if (g_chance(1, 4)) { g.use_main = 1; g.qkindmask = 1u << QK_MAIN; g.dispatch_main = g_chance(1, 2); }
 	else if (g_chance(1, 3)) { g.max_queues = 3; g.qkindmask |= 1u << QK_GLOBAL; g.single_queue = 0; }
+	// a quarter of the private-queue runs: the queue is suspended and resumed meanwhile, from its own items and from
+	// other threads (order and exclusion are not allowed to depend on it)
+	if (!g.use_main && g_chance(1, 4)) { g.opmask |= (1u << OP_SUSPEND) | (1u << OP_PAUSE); g.oracles |= O_SUSPEND; g.nest_pct = 35; }
 	qprog_run(&g);
 }
 const prop_def prop_C02 = { "C02", NULL, c02_run, qprog_counter_names,
@@ -100,7 +103,7 @@ const prop_def prop_C05 = { "C05", NULL, c05_run, qprog_counter_names,
 /* ---- C06: inactive and suspended queues ---- */
 static void c06_run(void) {
 	qgen g; qgen_defaults(&g);
-	g.oracles = O_SUSPEND | O_ONCE;
+	g.oracles = O_SUSPEND | O_ONCE | O_SERIAL;
 	g.opmask |= (1u << OP_SUSPEND) | (1u << OP_PAUSE);
 	g.qkindmask = (1u << QK_SERIAL) | (1u << QK_CONC);
 	g.min_queues = 1; g.max_queues = 3; g.inactive_pct = 30;
